@@ -379,7 +379,7 @@ def _cmp_state(c, ref, now, where):
     return None
 
 
-def _history(seed, steps, policy, stats, big, core, diskcache):
+def _history(seed, steps, policy, stats, big, core, diskcache, cull_limit=0):
     import random
     rnd = random.Random(seed)
     d = tempfile.mkdtemp()
@@ -387,7 +387,7 @@ def _history(seed, steps, policy, stats, big, core, diskcache):
     real = core.time.time
     core.time.time = lambda: clock[0]
     try:
-        c = diskcache.Cache(d, eviction_policy=policy, cull_limit=0, statistics=stats,
+        c = diskcache.Cache(d, eviction_policy=policy, cull_limit=cull_limit, statistics=stats,
                             disk_min_file_size=(8 if big else 2 ** 15), tag_index=bool(seed % 2))
         ref = RefCache()
         import pickle, pickletools
@@ -486,6 +486,21 @@ def _history(seed, steps, policy, stats, big, core, diskcache):
                     gk, gv = c.peekitem()
                     if not (same(gk, last) and same(gv, ref.d[last].value)):
                         return where + ': peekitem returned %r' % ((gk, gv),)
+            if cull_limit:
+                # lazy culling: a write may remove up to cull_limit items whose expiry time has passed --
+                # nothing else; the reference follows whatever was (legitimately) removed
+                have = list(c)
+                gone = [k for k in list(ref.d) if not any(same(k, h) for h in have)]
+                for k in gone:
+                    it_ = ref.d[k]
+                    if it_.expire is None or not (it_.expire < clock[0]):
+                        return where + ': item %r (expire %r) vanished although it has not expired' % (k, it_.expire)
+                if len(gone) > cull_limit:
+                    return where + ': %d items culled by one operation, cull_limit %d' % (len(gone), cull_limit)
+                if gone and op not in ('set', 'add', 'incr', 'decr'):
+                    return where + ': items %r removed by a non-writing operation' % (gone,)
+                for k in gone:
+                    del ref.d[k]
             bad = _cmp_state(c, ref, clock[0], where)
             if bad:
                 return bad
@@ -606,6 +621,52 @@ def _cull_relation(core, diskcache, tier):
     return None
 
 
+def _expired_key_writes(core, diskcache):
+    """Every write operation applied to a key whose item has expired but is still physically present,
+    with lazy culling enabled: the operation's own item must be there afterwards."""
+    for cull_limit in (1, 10):
+        for op in ('set', 'add', 'incr', 'decr', 'setitem'):
+            d = tempfile.mkdtemp()
+            clock = [1000.0]
+            real = core.time.time
+            core.time.time = lambda: clock[0]
+            try:
+                c = diskcache.Cache(d, cull_limit=0, disk_min_file_size=32)
+                for i in range(3):
+                    c.set('other%d' % i, i, expire=5 + i)
+                c.set('k', 100, expire=1)
+                c.set('live', b'v' * 100)
+                clock[0] += 60
+                c.reset('cull_limit', cull_limit)
+                if op == 'set':
+                    c.set('k', 7)
+                    want = 7
+                elif op == 'setitem':
+                    c['k'] = 7
+                    want = 7
+                elif op == 'add':
+                    if c.add('k', 7) is not True:
+                        return 'add over an expired item returned False (cull_limit %d)' % cull_limit
+                    want = 7
+                elif op == 'incr':
+                    want = c.incr('k', 2, default=5)
+                    if want != 7:
+                        return 'incr over an expired item returned %r' % (want,)
+                else:
+                    want = c.decr('k', 2, default=9)
+                got = c.get('k', default='MISSING')
+                if got != want or 'k' not in c or 'k' not in list(c):
+                    return '%s on an expired-but-present key with cull_limit %d: afterwards get -> %r, expected %r' % (op, cull_limit, got, want)
+                if c.get('live') != b'v' * 100:
+                    return '%s culled a live item' % op
+                if c.check():
+                    return '%s left an inconsistent cache: %r' % (op, [str(w.message) for w in c.check()][:2])
+            finally:
+                core.time.time = real
+                shutil.rmtree(d, ignore_errors=True)
+    return None
+
+
 def _dict_standin(pid, tier):
     import diskcache
     from diskcache import core
@@ -616,7 +677,8 @@ def _dict_standin(pid, tier):
     for i in range(nh):
         pol = ['least-recently-stored', 'least-recently-used', 'least-frequently-used', 'none'][i % 4]
         try:
-            bad = _history(seed0 * 1000 + i, steps, pol, stats=bool(i % 3 == 0), big=bool(i % 2), core=core, diskcache=diskcache)
+            bad = _history(seed0 * 1000 + i, steps, pol, stats=bool(i % 3 == 0), big=bool(i % 2), core=core, diskcache=diskcache,
+                           cull_limit=(0, 0, 1, 2, 10)[i % 5])
         except Exception as e:
             import traceback
             bad = 'history seed %d raised %r: %s' % (seed0 * 1000 + i, e, traceback.format_exc()[-300:])
@@ -624,8 +686,14 @@ def _dict_standin(pid, tier):
         if bad:
             break
     out = [result(pid + '.standin.reference_dictionary_histories', bad is None,
-                  '%d random histories x %d steps over 8 keys, 9 values, 7 ttls, 3 tags, mocked clock, 4 policies, cull_limit=0' % (nh, steps),
+                  '%d random histories x %d steps over 8 keys, 9 values, 7 ttls, 3 tags, mocked clock, 4 policies, cull_limit in {0,1,2,10}' % (nh, steps),
                   cases, bad)]
+    try:
+        b4 = _expired_key_writes(core, diskcache)
+    except Exception as e:
+        b4 = 'expired-key scenario raised %r' % (e,)
+    out.append(result(pid + '.standin.writes_over_expired_items', b4 is None,
+                      '5 write operations x cull_limit {1,10} on an expired-but-present key', 10, b4))
     try:
         b2 = _bulk(core, diskcache)
     except Exception as e:
